@@ -163,9 +163,14 @@ def impl_gen(req):
                 outs.append("KeyError")
                 break
             outs.append({"row": row_nums(row), "calls": list(calls)})
+    # the generator's pending-call flags and row counter, when they are still called what they were called
+    # when this harness was written (private names: their absence is not a difference in behaviour)
+    try:
+        final = {"bob": g._has_bob, "single": g._has_single, "index": g._index}
+    except AttributeError:
+        final = None
     return {"start_row": row_nums(g.start_row), "start_hand": g.start_stroke().is_hand(),
-            "stage": g.stage, "outs": outs,
-            "final": {"bob": g._has_bob, "single": g._has_single, "index": g._index}}
+            "stage": g.stage, "outs": outs, "final": final}
 
 
 HANDLERS = {"permute": impl_permute, "convert": impl_convert, "gen": impl_gen}
